@@ -649,6 +649,40 @@ class Interp:
                                 break
                             out.append(x)
                         return ('iter', out)
+                    if name == 'skip_while':
+                        i = 0
+                        while i < len(xs) and truth(c, xs[i]):
+                            i += 1
+                        return ('iter', list(xs[i:]))
+                    if name == 'map_while':
+                        out = []
+                        for x in xs:
+                            r = self.apply(c, [x])
+                            if not (isinstance(r, tuple) and r[:2] == ('ctor', SOME)):
+                                break
+                            out.append(r[2][0])
+                        return ('iter', out)
+                    if name in ('for_each',):
+                        for x in xs:
+                            self.apply(c, [x])
+                        return ()
+                    if name == 'flat_map':
+                        out = []
+                        for x in xs:
+                            r = self.apply(c, [x])
+                            if isinstance(r, IterObj):
+                                out += r.rest()
+                            elif isinstance(r, tuple) and len(r) == 2 and r[0] == 'iter':
+                                out += list(r[1])
+                            elif isinstance(r, tuple) and r[:2] == ('ctor', SOME):
+                                out.append(r[2][0])
+                            elif isinstance(r, tuple) and r[:2] == ('ctor', NONE):
+                                pass
+                            elif isinstance(r, tuple):
+                                out += list(r)
+                            else:
+                                raise Unanalysable('flat_map over a value the evaluator does not model')
+                        return ('iter', out)
                     if name == 'filter_map':
                         out = []
                         for x in xs:
@@ -657,7 +691,7 @@ class Interp:
                                 out.append(r[2][0])
                         return ('iter', out)
             if isinstance(recv, (str, tuple)) and not (isinstance(recv, tuple) and recv and recv[0] in ('ctor', 'struct', 'range', 'closure', 'iter')):
-                if name in ('iter', 'into_iter', 'iter_mut', 'drain') and not args and isinstance(recv, tuple):
+                if name in ('iter', 'into_iter', 'iter_mut', 'iter_mut2', 'drain') and not args and isinstance(recv, tuple):
                     return IterObj(recv)
                 if name in ('bytes', 'as_bytes') and not args and isinstance(recv, str):
                     b = tuple(recv.encode('utf-8'))
